@@ -20,8 +20,17 @@ RootNamesOK(in, obs) ==
      /\ "rootname" \in DOMAIN obs /\ Len(obs.rootname) = Len(in.spells)
      /\ \A k \in DOMAIN in.spells : obs.rootname[k] = GlobMatch(in.pat, W!NameOf(in.spells[k]), in.fold)
 
+\* -name P and -iname P side by side in one expression: each with its own letter-case rule (judged where the pattern
+\* is inside the domain under both rules)
+ExpectedWith(in, f) == SelectSeq([k \in DOMAIN in.subjects |-> k], LAMBDA k : GlobMatch(in.pat, in.subjects[k], f))
+BothOK(in, obs) ==
+  ("n1" \in DOMAIN obs /\ GlobInDomain(in.pat, TRUE) /\ GlobInDomain(in.pat, FALSE)) =>
+     /\ obs.n1 = SelectSeq(ExpectedWith(in, in.fold), LAMBDA k : obs.name_ok[k])
+     /\ obs.n2 = SelectSeq(ExpectedWith(in, ~in.fold), LAMBDA k : obs.name_ok[k])
+
 Conforms(in, obs) ==
   /\ "panic" \notin DOMAIN obs
+  /\ BothOK(in, obs)
   /\ RootNamesOK(in, obs)
   /\ "exit" \notin DOMAIN obs
   /\ obs.lname = Expected(in)
